@@ -22,6 +22,7 @@ type fieldRole struct {
 	unitT  *types.Named
 	isBus  bool
 	isUnit bool
+	roles  map[string]bool
 }
 
 type variant struct {
@@ -68,15 +69,53 @@ func namedOf(t types.Type) *types.Named {
 	}
 }
 
+// hasMethodNamed looks a method up (case-insensitively) in the method set of
+// *n, including methods promoted from embedded fields (the coroutine-based
+// units get Cycle from the embedded co.Coroutine).
 func hasMethodNamed(n *types.Named, names ...string) *types.Func {
-	for i := 0; i < n.NumMethods(); i++ {
+	ms := types.NewMethodSet(types.NewPointer(n))
+	for i := 0; i < ms.Len(); i++ {
+		f, ok := ms.At(i).Obj().(*types.Func)
+		if !ok {
+			continue
+		}
 		for _, want := range names {
-			if strings.EqualFold(n.Method(i).Name(), want) {
-				return n.Method(i)
+			if strings.EqualFold(f.Name(), want) {
+				return f
 			}
 		}
 	}
 	return nil
+}
+
+// unitRoles classifies a pipeline unit type by what its methods reach:
+// "exec" reaches InstructionRunner.Run, "write" reaches an architectural
+// writer of risc.Context.
+func (w *World) unitRoles(v *variant, n *types.Named) map[string]bool {
+	roles := map[string]bool{}
+	for i := 0; i < n.NumMethods(); i++ {
+		fd, pk := w.FuncDecl(n.Method(i))
+		if fd == nil || fd.Body == nil {
+			continue
+		}
+		if w.reaches(pk.TypesInfo, fd.Body, func(f *types.Func) bool {
+			sig := f.Type().(*types.Signature)
+			return f.Name() == "Run" && sig.Recv() != nil && typeName(sig.Recv().Type()) == "InstructionRunner"
+		}) {
+			roles["exec"] = true
+		}
+		if w.reaches(pk.TypesInfo, fd.Body, func(f *types.Func) bool { return isArchWriter(f) }) {
+			roles["write"] = true
+		}
+	}
+	return roles
+}
+
+var archWriters = map[string]bool{"WriteRegister": true, "TransactionWriteRegister": true, "TransactionRATWrite": true, "WriteMemory": true}
+
+func isArchWriter(f *types.Func) bool {
+	sig := f.Type().(*types.Signature)
+	return sig.Recv() != nil && typeName(sig.Recv().Type()) == "*Context" && archWriters[f.Name()]
 }
 
 func variants(w *World) []*variant {
@@ -141,6 +180,7 @@ func variants(w *World) []*variant {
 						if _, isSlice := f.Type().(*types.Slice); isSlice {
 							fr.kind = "units"
 						}
+						fr.roles = w.unitRoles(v, n)
 					}
 				}
 			}
@@ -247,11 +287,112 @@ func (v *variant) mainLoop() *ast.ForStmt {
 }
 
 // calleesIn lists the static callees (module functions) called inside n.
+// coroutineBindings maps a struct field of type co.Coroutine to the functions
+// installed into it with co.New(f) (the entry points of the hand-written
+// coroutines); calling Cycle on the field runs them.
+var coBindings = map[*World]map[*types.Var][]*types.Func{}
+
+func (w *World) coroutineBindings() map[*types.Var][]*types.Func {
+	if b, ok := coBindings[w]; ok {
+		return b
+	}
+	b := map[*types.Var][]*types.Func{}
+	coBindings[w] = b
+	for path, p := range w.Pkgs {
+		if !strings.HasPrefix(path, modPath) {
+			continue
+		}
+		info := p.TypesInfo
+		for _, f := range p.Syntax {
+			ast.Inspect(f, func(n ast.Node) bool {
+				as, ok := n.(*ast.AssignStmt)
+				if !ok || len(as.Lhs) != 1 || len(as.Rhs) != 1 {
+					return true
+				}
+				sel, ok := as.Lhs[0].(*ast.SelectorExpr)
+				if !ok {
+					return true
+				}
+				s := info.Selections[sel]
+				if s == nil || s.Kind() != types.FieldVal {
+					return true
+				}
+				call, ok := as.Rhs[0].(*ast.CallExpr)
+				if !ok {
+					return true
+				}
+				cf, ok := typeutil.Callee(info, call).(*types.Func)
+				if !ok || cf.Pkg() == nil || cf.Pkg().Path() != modPath+"/common/coroutine" || cf.Name() != "New" {
+					return true
+				}
+				for _, a := range call.Args {
+					if ms, ok := ast.Unparen(a).(*ast.SelectorExpr); ok {
+						if sel2 := info.Selections[ms]; sel2 != nil && sel2.Kind() == types.MethodVal {
+							b[s.Obj().(*types.Var)] = append(b[s.Obj().(*types.Var)], sel2.Obj().(*types.Func))
+						}
+					}
+				}
+				return true
+			})
+		}
+	}
+	return b
+}
+
+// coroutineTargets resolves a call of a co.Coroutine method (Cycle, …) to the
+// entry functions bound to the coroutine field it is invoked on.
+func (w *World) coroutineTargets(info *types.Info, call *ast.CallExpr) []*types.Func {
+	sel, ok := call.Fun.(*ast.SelectorExpr)
+	if !ok {
+		return nil
+	}
+	s := info.Selections[sel]
+	if s == nil || s.Kind() != types.MethodVal {
+		return nil
+	}
+	mf, ok := s.Obj().(*types.Func)
+	if !ok || mf.Pkg() == nil || mf.Pkg().Path() != modPath+"/common/coroutine" {
+		return nil
+	}
+	b := w.coroutineBindings()
+	if len(s.Index()) > 1 {
+		// promoted through an embedded field of the receiver's struct
+		st := structOf(s.Recv())
+		if st != nil && s.Index()[0] < st.NumFields() {
+			return b[st.Field(s.Index()[0])]
+		}
+		return nil
+	}
+	if inner, ok := ast.Unparen(sel.X).(*ast.SelectorExpr); ok {
+		if is := info.Selections[inner]; is != nil && is.Kind() == types.FieldVal {
+			return b[is.Obj().(*types.Var)]
+		}
+	}
+	return nil
+}
+
+var calleeWorld *World
+
 func calleesIn(info *types.Info, n ast.Node) []*types.Func {
 	var out []*types.Func
 	ast.Inspect(n, func(m ast.Node) bool {
-		if call, ok := m.(*ast.CallExpr); ok {
-			if f, ok := typeutil.Callee(info, call).(*types.Func); ok {
+		switch x := m.(type) {
+		case *ast.CallExpr:
+			if f, ok := typeutil.Callee(info, x).(*types.Func); ok {
+				out = append(out, f)
+			}
+			if calleeWorld != nil {
+				out = append(out, calleeWorld.coroutineTargets(info, x)...)
+			}
+		case *ast.SelectorExpr:
+			// method values (u.prepareRun passed as a continuation)
+			if s := info.Selections[x]; s != nil && s.Kind() == types.MethodVal {
+				if f, ok := s.Obj().(*types.Func); ok {
+					out = append(out, f)
+				}
+			}
+		case *ast.Ident:
+			if f, ok := info.Uses[x].(*types.Func); ok {
 				out = append(out, f)
 			}
 		}
@@ -263,6 +404,7 @@ func calleesIn(info *types.Info, n ast.Node) []*types.Func {
 // reaches reports whether a call to a function satisfying pred is reachable
 // from node n through static calls into module functions (depth-bounded).
 func (w *World) reaches(info *types.Info, n ast.Node, pred func(*types.Func) bool) bool {
+	calleeWorld = w
 	seen := map[*types.Func]bool{}
 	var rec func(info *types.Info, n ast.Node, depth int) bool
 	rec = func(info *types.Info, n ast.Node, depth int) bool {
